@@ -232,6 +232,8 @@ def run(chk):
            'literals are closed after their fields are unified', min_instances=2)
   from rules.c16 import end_of_chain
   end_of_chain(chk, 'C05-R6')
+  from rules.c16 import list_elements_kept
+  list_elements_kept(chk, 'C05-R6')
   rl = FnView(repo, 'infer.TypeInferenceForRule.ActMindingRecordLiterals')
   closes = [(n, c) for n, c in rl.all_calls() if call_tail(c) == 'CloseRecord']
   fields = [(n, c) for n, c in rl.all_calls() if call_tail(c) == 'UnifyRecordField']
